@@ -236,8 +236,7 @@ def replay(ctx, doc):
     import spowtd.fit_offsets as fo
     inp = doc["input"]
     if "series" not in inp:
-        print("replay of find_offsets relabelling cases: rerun the check with VERIF_SEED=%s" % doc.get("seed"))
-        return True
+        return None   # re-run the stream with the recorded seed (check.py does it)
     series = [(list(t), list(h)) for t, h in inp["series"]]
     try:
         offsets, master = impl_align(fo, series, inp["step"])
